@@ -97,7 +97,13 @@ def plant_enabler(rng, w, info):
     F = info["F"]
     params = [p for p in info["params"] if p[0] in F[1:]]
     name = "en%d" % len(w.actions)
-    eff = rng.choice([["increase", F, "2"], ["assign", F, "2"], ["decrease", F, "3"], ["assign", F, "0"]])
+    guard = info["pre"][1][0] if len(info["pre"]) > 1 else None
+    if guard in (">=", ">"):
+        eff = rng.choice([["increase", F, "3"], ["assign", F, "5"]])
+    elif guard in ("<=", "<"):
+        eff = rng.choice([["decrease", F, "3"], ["assign", F, "0"], ["assign", F, "-1"]])
+    else:
+        eff = rng.choice([["increase", F, "2"], ["assign", F, "2"], ["decrease", F, "3"], ["assign", F, "0"]])
     w.actions.append({"name": name, "params": params, "group": False, "pre": ["and"], "eff": ["and", eff]})
     return name
 
@@ -110,7 +116,7 @@ def repeat_cases(rng, tier):
     cases = []
     for _ in range({"quick": 12, "thorough": 80}[tier]):
         w = G.gen_world(rng, max_actions=2)
-        info = plant_read_write(rng, w)
+        info = plant_read_write(rng, w, guarded=rng.random() < 0.7)
         en = plant_enabler(rng, w, info)
         objs = G.gen_objects(rng, w)
         calls = all_calls(rng, w, objs)
@@ -118,6 +124,11 @@ def repeat_cases(rng, tier):
         if not rw_calls:
             continue
         st = G.gen_state(rng, w, objs)
+        guard = info["pre"][1] if len(info["pre"]) > 1 else None
+        if guard is not None and rng.random() < 0.6:
+            # start where the guarded call is refused: the enabler makes it applicable later
+            bad = float(guard[2]) + 2.0 if guard[0] in ("<=", "<") else float(guard[2]) - 2.0
+            st["fluents"] = [(f, a, bad if f == "rf" else v) for f, a, v in st["fluents"]]
         base = {"domain_text": G.render(w.domain_tree("dom"), rng, True), "problem_text": G.problem_text(w, objs, st, domain="dom"),
                 "objects": [list(o) for o in objs], "init": st, "features": sorted(w.features), "numeric_actions": numeric_actions(w)}
         for _k in range(2):
